@@ -295,16 +295,19 @@ func compare(s *bundlekit.Spec, file []byte, rb *bundle.Bundle) string {
 	return ""
 }
 
-func TestPropRoundTrip(t *testing.T) {
-	prop.Rapid(t, func(t *rapid.T) Case {
-		s := bundlekit.GenWide(t)
-		if rapid.IntRange(0, 5).Draw(t, "align") == 0 {
-			// a section or the whole file ending exactly at / next to a multiple of a typical piece size
-			bundlekit.AlignTo(s, rapid.SampledFrom([]string{"responses", "index+responses", "file"}).Draw(t, "aligntarget"),
-				rapid.SampledFrom([]int{512, 4096, 32768, 65536}).Draw(t, "alignmod"), rapid.SampledFrom([]int{0, 0, -1, 1}).Draw(t, "alignoff"))
-		}
-		return Case{Spec: *s, Cycles: rapid.IntRange(0, 3).Draw(t, "cycles"), ReadMode: gen.DrawSourceMode(t, "readmode")}
-	})
+func TestPropRoundTrip(t *testing.T) { prop.Rapid(t, genPropRoundTrip) }
+
+// TestConcRoundTrip: batches of cases evaluated at the same time on separate goroutines (vh.Prop.Concurrent).
+func TestConcRoundTrip(t *testing.T) { prop.Concurrent(t, genPropRoundTrip, 8, 3) }
+
+func genPropRoundTrip(t *rapid.T) Case {
+	s := bundlekit.GenWide(t)
+	if rapid.IntRange(0, 5).Draw(t, "align") == 0 {
+		// a section or the whole file ending exactly at / next to a multiple of a typical piece size
+		bundlekit.AlignTo(s, rapid.SampledFrom([]string{"responses", "index+responses", "file"}).Draw(t, "aligntarget"),
+			rapid.SampledFrom([]int{512, 4096, 32768, 65536}).Draw(t, "alignmod"), rapid.SampledFrom([]int{0, 0, -1, 1}).Draw(t, "alignoff"))
+	}
+	return Case{Spec: *s, Cycles: rapid.IntRange(0, 3).Draw(t, "cycles"), ReadMode: gen.DrawSourceMode(t, "readmode")}
 }
 
 // TestLargeBodies: bodies of 2^k and 2^k + 1 octets for k = 16..24 (quick) / ..26 (thorough), the
